@@ -161,6 +161,7 @@ WITNESSES["C08"] += [(_W2, _W2 + ".read_v2000_render_witness"), (_W2, _W2 + ".re
 WITNESSES["C09"].append((_W2, _W2 + ".C09_tucan'_witness"))
 WITNESSES["C11"].append((_W2, _W2 + ".C11_renumber_witness"))
 WITNESSES["C13"].append((_W2, _W2 + ".C13_attrs_witness"))
+WITNESSES["C05"] += [("Contracts.Witness3", "Contracts.Witness3.C05_star_witness"), ("Contracts.Witness3", "Contracts.Witness3.C05_D_iso5_witness")]
 WITNESSES["C10"] = [("Contracts.C10Full", "Contracts.C10Full.C10_witness"), ("Contracts.C10Full", "Contracts.C10Full.V4full_satisfiable")]
 WITNESSES["C16"] += [("Contracts.RelabelTotal", "Contracts.RelabelTotal.Witness.C16_total_witness"), ("Contracts.RelabelTotal", "Contracts.RelabelTotal.Witness.returns_witness"),
                      ("Contracts.RelabelTotal", "Contracts.RelabelTotal.Witness.diverges_witness")]
